@@ -645,6 +645,11 @@ func c14Worker(w *core.WorkerCtx) {
 			continue
 		}
 		d.Run()
+		// transactions sealed just inside the seven day window are outside it by the time a node syncs
+		if wait := time.Until(world.NearExpiry.Add(1200 * time.Millisecond)); wait > 0 && wait < 6*time.Second {
+			time.Sleep(wait)
+			w.R.Count("c14_sources_holding_a_transaction_that_left_the_seven_day_window", 1)
+		}
 		sources := append([]*ledger.Node{}, world.Nodes...)
 		for _, src := range sources {
 			st := recordStream(src)
